@@ -22,5 +22,14 @@ SizeBound == P!SizeBound /\ waitcnt <= QSize
 CxPOk == ok \/ ~PrintT(<<"CX", ToJson(hist)>>)
 CxNoStrand == NoStrand \/ ~PrintT(<<"CX", ToJson(hist)>>)
 
+\* witnesses (thorough tier): each is *expected to be violated* - the situation it denies is reached by the model
+WitRelease == last.ev # "release"
+WitTtl == last.ev # "ttl"
+WitFull == last.ev # "full"
+WitBuffered == ~(\E i \in Req : sig[i] /\ pc[i] = "e2")               \* handed over while the waiter is before its select
+WitTtlVsSignal == ~(\E i \in Req : woke[i] = "ttl" /\ sig[i])        \* the TTL fired and the hand-over came before the re-check
+WitSkipGone == ~(\E i \in Req : gone[i] /\ i \in heap)               \* an abandoned request still in the heap
+
+ViewL == <<now, counter, wend, heap, waitcnt, lock, ts, gated, parked, sig, woke, gone, deadline, res, rollAt, cur, rq, rel, ok, strand, pc, last>>
 View == <<now, counter, wend, heap, waitcnt, lock, ts, gated, parked, sig, woke, gone, deadline, res, rollAt, cur, rq, rel, ok, strand, pc>>
 =============================================================================
